@@ -33,7 +33,7 @@ pub fn checks() -> Vec<Check> {
             id: "C48",
             title: "Relay rate limiters are token buckets",
             level: Level::Exploration,
-            rule: "The per-peer and the per-IP limiter (obtained through relay::Config's public builder methods) are driven with seeded request sequences over 3 peers x 3 IPs with non-decreasing timestamps (steps of 0, fractions and multiples of the interval, idle periods of limit*interval). For every identity (peer resp. IP): any two accepted requests at t_i <= t_j enclose at most limit + floor((t_j - t_i)/interval) accepted requests; a request from an identity that made no request for limit*interval is accepted; the per-IP limiter keys on the address only (requests of different peers from one IP share the budget, the same peer from another IP does not)",
+            rule: "The per-peer and the per-IP limiter (obtained through relay::Config's public builder methods) are driven with seeded request sequences over 3 peers x 3 IPs with non-decreasing timestamps (bursts at one instant, fractions of the interval, pauses of 1..limit+2 whole intervals, idle periods of limit*interval). For every identity (peer resp. IP): any two accepted requests at t_i <= t_j enclose at most limit + floor((t_j - t_i)/interval) accepted requests; a request from an identity that made no request for limit*interval is accepted; the per-IP limiter keys on the address only (requests of different peers from one IP share the budget, the same peer from another IP does not)",
             assumptions: &["timestamps are passed explicitly (the limiter takes `now` as an argument); they are virtual Instants"],
             real: &["relay::behaviour::rate_limiter (GenericRateLimiter, per-peer and per-IP wrappers)"],
             stub: &["clock -> explicit virtual timestamps"],
@@ -291,8 +291,11 @@ fn rate_limiter() -> SimResult {
     let mut ids: BTreeMap<usize, Id> = BTreeMap::new();
     let steps = 10 + choose(140);
     let (mut refused, mut idle_hits) = (0u32, 0u32);
+    let mut last_pa = (0usize, 0usize);
     for _ in 0..steps {
-        t += match choose(8) {
+        t += match choose(10) {
+            8 => interval * (2 + choose(limit as usize + 1) as u32),
+            9 => interval * (2 + choose(limit as usize + 1) as u32) + interval / 3,
             0 | 1 => Duration::ZERO,
             2 => interval / 2,
             3 => interval,
@@ -301,7 +304,9 @@ fn rate_limiter() -> SimResult {
             6 => interval * (limit + 1) + Duration::from_micros(choose(1000) as u64),
             _ => Duration::from_micros(choose(2 * interval.as_micros() as usize + 1) as u64),
         };
-        let (p, a) = (choose(3), choose(3));
+        // bursts: half of the time the same identity as before asks again
+        let (p, a) = if choose(2) == 0 { last_pa } else { (choose(3), choose(3)) };
+        last_pa = (p, a);
         let key = if per_ip { a } else { p };
         let ok = lim.try_next(peers[p], &addrs[a], base + t);
         let id = ids.entry(key).or_default();
